@@ -1345,6 +1345,9 @@ func (h *harness) finalChecks() {
 		}
 		s.Count("probe.convergence_checked", 1)
 	}
+	if h.disk != nil && !h.modelSide["alpha"] && !h.modelSide["beta"] {
+		h.disk.checkAttribution(a, b, st, underConflict)
+	}
 	// C01 rule 3: differing non-archived content at the same path is reported
 	// as a conflict (two-way-safe) - never silently left or resolved.
 	if h.mode == core.SynchronizationMode_SynchronizationModeTwoWaySafe {
